@@ -420,6 +420,11 @@ Emit ==
   /\ (pc = "methods" /\ j = 1 /\ ti = 1 /\ c.tmpl = "testify" /\ c.inpkg) =>
         PrintT(<<"PROG", ToJson([prog |-> Prog, methods |-> MethodsOf(Prog, Prog.target), wellformed |-> WellFormedProgram,
                                  targs |-> TargTuples(Prog.decls[Prog.target].tps),
+                                 \* a method of the target is reachable along two different paths (overlapping embeds / re-declaration)
+                                 overlap |-> LET d == Prog.decls[Prog.target]
+                                                 ns(i) == MethodNames(MethodSetOf(Prog.decls, d.es[i], 5))
+                                             IN \/ \E i, k \in 1..Len(d.es) : i < k /\ ns(i) \cap ns(k) # {}
+                                                \/ \E i \in 1..Len(d.es) : ns(i) \cap {d.ms[x].n : x \in 1..Len(d.ms)} # {},
                                  dm |-> ExpData(MethodsOf(Prog, Prog.target), Prog.decls[Prog.target].tps),
                                  \* C02, several interfaces mocked into one file: method set / type arguments of every declaration
                                  sets |-> [n \in DOMAIN Prog.decls |-> SortByRank(TargetMethodSet(Prog.decls, n))],
